@@ -15,7 +15,7 @@ for w in $(seq 1 $W); do
       [ $(( (n-1) % W + 1 )) -eq $w ] || continue
       p=${id%-*}; k=${id##*-}
       echo "=== $id"
-      (cd $SNAP && SEED_SCRATCH=/tmp/seedrepo_re_$w python3 tools/seed_eval.py /tmp/none $k $id --no-confirm 2>&1 | grep -E "CAUGHT|Error|error:|assert" | head -3)
+      (cd $SNAP && SEED_PROPS=${SEED_PROPS:-} SEED_SCRATCH=/tmp/seedrepo_re_$w python3 tools/seed_eval.py /tmp/none $k $id --no-confirm 2>&1 | grep -E "CAUGHT|Error|error:|assert" | head -3)
       cp $SNAP/seeded/$id/meta.json /verif/seeded/$id/meta.json
     done < /tmp/reeval_ids.txt
     echo WORKERDONE
